@@ -504,7 +504,11 @@ func atomsString(p *Path) string {
 func absPaths(c *Ctx, dv *dev) ([]*Path, error) {
 	fn := dv.fn["handleABSEvent"]
 	c.Fn(shortFn(fn))
-	paths, err := Enumerate(fn, SymConfig{Prog: c.P, MaxDepth: 1, Collapse: true, CollapsePure: true, OnlyInline: map[*ssa.Function]bool{}})
+	only := map[*ssa.Function]bool{}
+	for f := range dv.ctors {
+		only[f] = true
+	}
+	paths, err := Enumerate(fn, SymConfig{Prog: c.P, MaxDepth: 2, Collapse: true, CollapsePure: true, OnlyInline: only})
 	c.Paths += len(paths)
 	return paths, err
 }
